@@ -43,7 +43,13 @@ def generate(seed, tier="quick", mode=None, **kw):
         lines = []
         for _ in range(r.randint(1, 12)):
             c = r.random()
-            if c < 0.10 and o["ip"]:
+            if c < 0.08 and o["ip"] and ctx["a4"]:
+                # the IPv4-mapped IPv6 form (hex spelling) of an address that also occurs as IPv4 elsewhere in the tree
+                v = r.choice(ctx["a4"])
+                v6 = (0xFFFF << 32) | v
+                lines.append({"segs": [["lit", "ipv6 route "], ["a6", "::ffff:%x:%x" % (v >> 16, v & 0xFFFF), {"v": v6}],
+                                       ["lit", " via "], ["a4", G.tok4(r, v, zeros=False), {"v": v}]], "eol": "\n"})
+            elif c < 0.16 and o["ip"]:
                 lines.append(GC.directed_line(r))
             elif c < 0.25:
                 lines.append(G.lit_line(r.choice(G.BENIGN)))
